@@ -101,6 +101,13 @@ pub mod par {
     ///
     /// [`FrameBuf`]: crate::source::FrameBuf
     pub const FRAMEBUF_MULTIPLICITY: usize = 2;
+
+    /// Upper bound of the number of worker threads in par-mode.
+    ///
+    /// A larger request (from the configuration or the environment variable)
+    /// is clamped to this value. The encoder output does not depend on the
+    /// number of workers.
+    pub const MAX_WORKERS: usize = 1024;
 }
 
 /// Constants related to quantized linear predictive coding (QLPC).
